@@ -23,8 +23,16 @@ Definition pois_gap (A' : mat) (base' : vec) (n : nat) (lb ub w b x : vec) : Q :
    tangent at x towards x0  +  Frank-Wolfe gap at x0.  First-order tight, unlike the gap at x itself. *)
 Definition pois_excess (A' : mat) (base' : vec) (n : nat) (lb ub w b x x0 : vec) : Q :=
   dot (pois_coef w b (predict A' base' x)) (vsub (predict A' base' x) (predict A' base' x0)) + pois_gap A' base' n lb ub w b x0.
+(* the returned point may miss its bounds by the solver's accuracy, stated per source (1 % of THAT source's range with default settings):
+   the clipped point and the raw one are compared coordinate by coordinate *)
+Fixpoint vclose_absv (tols u v : vec) : bool :=
+  match tols, u, v with
+  | [], [], [] => true
+  | t :: tols', a :: u', b :: v' => Qle_bool (Qabs (a - b)) t && vclose_absv tols' u' v'
+  | _, _, _ => false
+  end.
 Record pcase := { p_K : kmat; p_A : mat; p_n : nat; p_lb : vec; p_ub : vec; p_base : vec; p_w : vec; p_b : vec;
-                  p_X : vec; p_X0 : vec; p_Xraw : vec; p_Bpred : vec; p_in_gamut : bool; p_eps : Q; p_tolb : Q; p_tolc : Q }.
+                  p_X : vec; p_X0 : vec; p_Xraw : vec; p_Bpred : vec; p_in_gamut : bool; p_eps : Q; p_tolb : vec; p_tolc : Q }.
 Definition pverdict (c : pcase) : bool :=
   let A' := transA (p_K c) (p_A c) (p_n c) in let base' := transB (p_K c) (p_base c) in
   let p := predict A' base' (p_X c) in
@@ -35,7 +43,7 @@ Definition pverdict (c : pcase) : bool :=
   in_boxb (p_X0 c) (p_lb c) (p_ub c) && all_pos (predict A' base' (p_X0 c)) && Nat.eqb (length (p_X0 c)) (p_n c) && Nat.eqb (length (p_X c)) (p_n c) &&
   Qle_bool (pois_excess A' base' (p_n c) (p_lb c) (p_ub c) (p_w c) (p_b c) (p_X c) (p_X0 c)) (p_eps c) &&
   vclose (1 # 100000000) (1 # 100000000) (predict A' base' (p_Xraw c)) (p_Bpred c) &&
-  vclose_abs (p_tolb c) (p_X c) (p_Xraw c) &&
+  vclose_absv (p_tolb c) (p_X c) (p_Xraw c) &&
   (if p_in_gamut c then vclose_abs (p_tolc c) p (p_b c) else true).
 
 (* ---------- excitation ---------- *)
@@ -56,14 +64,14 @@ Definition level_inst (A' : mat) (base' : vec) (n : nat) (lb ub : list (option Q
   let rows := level_rows A' base' w b s in
   {| Duality.n := n; ilb := lb; iub := ub; G := map fst rows; h := map snd rows; cones := [] |}.
 Record ecase := { e_K : kmat; e_A : mat; e_n : nat; e_lb : list (option Q); e_ub : list (option Q); e_base : vec; e_w : vec; e_b : vec;
-                  e_X : vec; e_Xraw : vec; e_Bpred : vec; e_in_gamut : bool; e_delta : Q; e_lam : vec; e_tolb : Q; e_tolc : Q }.
+                  e_X : vec; e_Xraw : vec; e_Bpred : vec; e_in_gamut : bool; e_delta : Q; e_lam : vec; e_tolb : vec; e_tolc : Q }.
 Definition everdict (c : ecase) : bool :=
   let A' := transA (e_K c) (e_A c) (e_n c) in let base' := transB (e_K c) (e_base c) in
   let p := predict A' base' (e_X c) in
   let t := exc_err (e_w c) (e_b c) p in
-  in_boxob (e_tolb c) (e_X c) (e_lb c) (e_ub c) && all_pos (vshift 1 (vmul (e_w c) p)) && all_nonneg (e_b c) && all_pos (e_w c) &&
+  in_boxob 0 (e_X c) (e_lb c) (e_ub c) && all_pos (vshift 1 (vmul (e_w c) p)) && all_nonneg (e_b c) && all_pos (e_w c) &&
   vclose (1 # 100000000) (1 # 100000000) (predict A' base' (e_Xraw c)) (e_Bpred c) &&
-  vclose_abs (e_tolb c) (e_X c) (e_Xraw c) &&
+  vclose_absv (e_tolb c) (e_X c) (e_Xraw c) &&
   (if e_in_gamut c then vclose_abs (e_tolc c) p (e_b c) else true) &&
   (* optimality: the level set at t - delta is empty (nothing to show when t <= delta: the error is never negative) *)
   (Qle_bool t (e_delta c) ||
